@@ -72,3 +72,24 @@ def calls_to(path, key):
 
 def zmax(a, b):
     return z3.If(a >= b, a, b)
+
+
+def typed_opaque(eng, name, methods):
+    """an opaque object with contracted methods; every method call is logged as ('method', name)"""
+    o = eng.obj(name)
+    eng.assume(z3.Not(isnone_of(o)))
+    table = {}
+    for mname, h in methods.items():
+        def mk(mname, h):
+            def call(e, self_obj, *a, **k):
+                rec = e.log_call(("method", name, mname), a, k)
+                rec.result = h(e, rec)
+                return rec.result
+            return call
+        table[mname] = mk(mname, h)
+    eng.set_iface(o, table)
+    return o
+
+
+def method_calls(path, objname, mname):
+    return [c for c in path.calls if c.target == ("method", objname, mname)]
